@@ -10,6 +10,10 @@ def base_steps(sc):
     steps = [{"op": "init"}]
     if sc["t0"] is not None:
         steps += [{"op": "mktree", "path": "src", "tree": sc["t0"]}, {"op": "walk"}, {"op": "backup", "opts": sc["o0"]}]
+        if sc.get("prior_incomplete"):
+            # the newest earlier version is an INTERRUPTED one: the faulted backup stitches its basis across two versions
+            steps += [{"op": "mktree", "path": "src", "tree": sc["tmid"]}, {"op": "walk"},
+                      {"op": "backup", "opts": sc["o0"], "plan": {"crash": sc["prior_incomplete"]}}]
     steps += [{"op": "mktree", "path": "src", "tree": sc["t1"]}, {"op": "snap", "path": "src"}, {"op": "walk"}, {"op": "arch"}]
     return steps
 
@@ -57,7 +61,12 @@ def make_scenarios(ctx, n):
             for nm in ("multi3", "multi4"):
                 d = bytes.fromhex(t1["c"][nm]["data"])
                 t0["c"][nm] = dict(t1["c"][nm], data=(d[:-o1["mbs"] + 1] + bytes(ctx.rng.randrange(1, 255) for _ in range(o1["mbs"] - 1))).hex(), mtime=10**18 + 299)
-        out.append({"id": f"S{i}", "t0": t0, "o0": o0, "t1": t1, "o1": o1})
+        sc_ = {"id": f"S{i}", "t0": t0, "o0": o0, "t1": t1, "o1": o1}
+        if t0 is not None and i % 4 in (1, 3) and i >= 1:
+            tmid, _m = gen.mutate_tree(ctx.rng, t0)
+            tmid["c"]["mid-only"] = {"k": "f", "data": "6d6964", "mode": 0o644, "mtime": 10**18 + 250}
+            sc_.update(prior_incomplete=ctx.rng.choice([16, 20, 24]), tmid=tmid)
+        out.append(sc_)
     return out
 
 
@@ -85,6 +94,8 @@ def check_faulted(ctx, sc, rules_desc, pre_arch, src_snap, r_backup, r_arch, r_r
                 continue
             c = scen.entry_content(e, dec["blocks"])
             want = src_bytes if (bid == newest and (sc["t0"] is None or bid > 0)) else old_bytes
+            if sc.get("prior_incomplete") and bid == 1 and bid != newest:
+                want = scen.tree_file_bytes(sc["tmid"])
             if isinstance(c, str):
                 ctx.oracle_fail("faults/dangling", f"band {bid} records {e['apath']} with a dangling reference ({c}) after faults {rules_desc}", small)
                 return
@@ -189,7 +200,9 @@ def run(ctx):
         base = l4.History(sc["id"], names)
         nb = len(base_steps(sc))
         for st, rs in zip(steps[:nb], r[:nb]):
-            if st["op"] != "arch":
+            if st["op"] == "backup" and st.get("plan") and "crash" in st["plan"] and rs.get("crashed"):
+                base.add(st, rs, mode=1, crash=(st["plan"]["crash"], False))
+            elif st["op"] != "arch":
                 base.add(st, rs)
         base.set_base(r[nb]["trace"])
         ref_h = base.fork(sc["id"] + "_ref")
